@@ -28,27 +28,18 @@ LEAN_SOURCES = ["LenaModel/Model/Val.lean", "LenaModel/Model/C07.lean", "LenaMod
                 "LenaModel/Props/C07.lean"]
 DRIVER = "drivers/C07.lean"
 THEOREMS = [
-    # containment (the order the statement speaks about)
-    "Lena.C07.cont_refl",
-    "Lena.C07.cont_trans",
-    "Lena.C07.cont_antisymm",
-    # intersection: greatest lower bound, hence commutative / associative / idempotent
-    "Lena.C07.interN_cons",
+    # (the theorems that carry the property; structural / definitional ones are in AUX_THEOREMS)
     "Lena.C07.inter_lower",
     "Lena.C07.inter_greatest",
-    "Lena.C07.inter_wf",
     "Lena.C07.inter_unique",
     "Lena.C07.inter_perm",
     "Lena.C07.inter_comm",
     "Lena.C07.inter_assoc",
     "Lena.C07.inter_idem",
     "Lena.C07.inter_eq_left_iff",
-    "Lena.C07.inter_nil_single",
     "Lena.C07.inter_level0",
     "Lena.C07.inter_level1_key",
-    "Lena.C07.inter_key",
-    "Lena.C07.intersection_error_iff",
-    # difference: exactly the items of d1 not contained in d2
+    "Lena.C07.inter_level_step",
     "Lena.C07.diff_exact",
     "Lena.C07.diff_truthiness_irrelevant",
     "Lena.C07.diff_key_iff",
@@ -57,62 +48,72 @@ THEOREMS = [
     "Lena.C07.diff_keeps_empty_dict",
     "Lena.C07.diff_empty_iff",
     "Lena.C07.diff_contained",
-    "Lena.C07.diffV_nondict",
-    "Lena.C07.diffV_dict",
-    # reconstruction
     "Lena.C07.reconstruct",
-    "Lena.C07.reconstruct_call",
     "Lena.C07.reconstruct_from_part",
     "Lena.C07.reconstruct_nary",
-    # levels
     "Lena.C07.cont_level_unlimited",
     "Lena.C07.inter_level_le_unlimited",
     "Lena.C07.level_covers_inter",
     "Lena.C07.level_covers_diff",
     "Lena.C07.level_covers_cont",
-    # deep copy / aliasing (token model)
-    "Lena.C07.interT_value",
     "Lena.C07.inter_is_copy",
     "Lena.C07.inter_shares_nothing",
-    "Lena.C07.diffT_value",
     "Lena.C07.diff_objects",
-    # update_recursively with a string `other` / `value`; keyword arguments; the nested_dicts test
-    "Lena.C07.str_to_dict_value",
-    "Lena.C07.str_to_dict_errors",
+    "Lena.C07.inter_writes_only_new",
+    "Lena.C07.inter_changes_no_argument",
+    "Lena.C07.diff_writes_only_new",
+    "Lena.C07.diff_changes_no_argument",
     "Lena.C07.update_str_value",
     "Lena.C07.update_str_leaves_alone",
-    "Lena.C07.update_forms",
-    "Lena.C07.intersection_kw",
     "Lena.C07.nested_dicts_test_never_fires",
     "Lena.C07.most_nested_spec",
-    # the callers: LenaSplit._get_context, group_plots, Zip._create_context, _update_with_group
     "Lena.C07.split_context",
     "Lena.C07.group_context",
     "Lena.C07.zip_context",
     "Lena.C07.update_with_group_contains",
     "Lena.C07.update_with_group_contains_old",
-    "Lena.C07.update_with_group_result",
-    # what is mutated (write-log model)
-    "Lena.C07.update_mut_value",
+    "Lena.C07.update_with_group_result_partial",
+    "Lena.C07.update_with_group_result_full_false",
     "Lena.C07.update_writes",
     "Lena.C07.update_never_writes_other",
     "Lena.C07.update_objects",
     "Lena.C07.update_other_objects_intact",
     "Lena.C07.diff_old_objects_intact",
-    "Lena.C07.update_nested_mut_value",
     "Lena.C07.update_nested_writes",
-    # update_recursively
     "Lena.C07.update_contains",
     "Lena.C07.update_keeps",
     "Lena.C07.update_keys",
     "Lena.C07.update_scalar_overwrites",
     "Lena.C07.update_idem",
-    "Lena.C07.update_error_iff",
-    # update_nested
     "Lena.C07.update_nested_ok",
     "Lena.C07.update_nested_keeps",
     "Lena.C07.update_nested_other_kept",
     "Lena.C07.update_nested_typeError_iff",
+]
+# true by unfolding, model-to-model glue, vocabulary-only or encoding lemmas: audited, not counted as obligations of C07
+AUX_THEOREMS = [
+    "Lena.C07.cont_refl",
+    "Lena.C07.cont_trans",
+    "Lena.C07.cont_antisymm",
+    "Lena.C07.interN_cons",
+    "Lena.C07.inter_wf",
+    "Lena.C07.inter_key",
+    "Lena.C07.inter_nil_single",
+    "Lena.C07.intersection_error_iff",
+    "Lena.C07.diffV_nondict",
+    "Lena.C07.diffV_dict",
+    "Lena.C07.reconstruct_call",
+    "Lena.C07.update_error_iff",
+    "Lena.C07.update_forms",
+    "Lena.C07.intersection_kw",
+    "Lena.C07.str_to_dict_errors",
+    "Lena.C07.str_to_dict_value",
+    "Lena.C07.interT_value",
+    "Lena.C07.diffT_value",
+    "Lena.C07.update_mut_value",
+    "Lena.C07.update_nested_mut_value",
+    "Lena.C07.interArgs_value",
+    "Lena.C07.diffArgs_value",
 ]
 TRUSTED = [
     "Lean 4.33.0 kernel; axioms limited to propext, Classical.choice, Quot.sound (audited by #print axioms on every run)",
@@ -393,14 +394,16 @@ def _gen(ctx, n_exh_leaves, n_pair, n_multi, n_nested, n_bad, n_ext):
     """lazy stream of cases; every stream has its own generator seeded from ctx.rng"""
     top = ctx.rng
     keys3 = ["a", "b", "c"]
-    f, t = top.choice(FALSY), top.choice(TRUTHY)
-    leaves2 = [f, t]
-    if n_exh_leaves >= 3:
-        leaves2.append(top.choice([x for x in PALETTE if x != f and x != t]))
+    # the exhaustive scopes use fixed leaves (a falsy and a truthy scalar, None in the thorough tier; `{}` comes with the
+    # depth); one smaller scope rotates through the rest of the palette with the seed
+    f, t = 0, "x"
+    leaves2 = [0, "x"] if n_exh_leaves < 3 else [0, None, "x"]
     leaves3 = [top.choice(FALSY), top.choice(TRUTHY), top.choice(PALETTE)]
     u2 = _universe(["a", "b"], leaves2, 2)
     u3 = _universe(["a", "b", "c"], leaves3, 1)
     u1 = _universe(["a", "b"], [f, t], 1)
+    ud3 = _universe(["a", "b"], [0, "x"], 3)              # 21 609 dictionaries of depth <= 3: pairs sampled systematically
+    ud3_1 = _universe(["a"], [0, None, "x"], 3)            # 12 dictionaries over one key, depth <= 3: all pairs
     deep_every = 6 if n_exh_leaves < 3 else 8
     # (these dictionaries have depth <= 2: level 3 is level -1 there — `level_covers_*` — and is left to the sampled
     # scopes in the quick tier)
@@ -408,7 +411,9 @@ def _gen(ctx, n_exh_leaves, n_pair, n_multi, n_nested, n_bad, n_ext):
     seeds = [top.random() for _ in range(16)]
     ctx.exhaustive = False   # the sampled part is not an enumeration
     ctx.notes = [f"exhaustive pair scope: keys a,b depth<=2 leaves {leaves2!r} ({len(u2)}^2 pairs); keys a,b,c depth 1 leaves "
-                 f"{leaves3!r} ({len(u3)}^2 pairs); all {len(u1)}^3 triples over a,b depth 1 x {len(LEVELS)} levels"]
+                 f"{leaves3!r} ({len(u3)}^2 pairs); key a depth<=3 leaves 0,None,'x' ({len(ud3_1)}^2 pairs); all {len(u1)}^3 "
+                 f"triples over a,b depth 1 x {len(LEVELS)} levels; systematic sample of the pairs of the {len(ud3)} "
+                 f"dictionaries over a,b of depth<=3 with leaves 0,'x'"]
 
     def exh_pairs():
         for i, a in enumerate(u2):
@@ -417,6 +422,17 @@ def _gen(ctx, n_exh_leaves, n_pair, n_multi, n_nested, n_bad, n_ext):
                 # pattern of the results with the token model and the objects written by update_recursively with the write
                 # log; on a sixth / an eighth of the exhaustive scope and on every sampled pair)
                 yield {"op": "pair", "a": a, "b": b, "levels": exh_levels, "paths": (i + j) % deep_every == 0}
+
+    def exh_depth3():
+        for a in ud3_1:
+            for b in ud3_1:
+                yield {"op": "pair", "a": a, "b": b, "levels": LEVELS, "paths": True}
+        n3 = len(ud3)
+        stride, partners = (9, 1) if n_exh_leaves < 3 else (1, 2)
+        for i in range(0, n3, stride):
+            for j in range(partners):
+                b = ud3[(i * 7919 + 13 + 1009 * j) % n3] if (i + j) % 3 else ud3[(i + 1 + j) % n3]     # far and near partners
+                yield {"op": "pair", "a": ud3[i], "b": b, "levels": LEVELS, "paths": i % 16 == 0}
 
     def exh_small():
         for a in u3:
@@ -483,7 +499,7 @@ def _gen(ctx, n_exh_leaves, n_pair, n_multi, n_nested, n_bad, n_ext):
             # `other` with a chain key.key...key of random length, ending in an absent key (fine) or in a leaf (TypeError)
             other = _rand_dict(rng, keys3, 2, leaves)
             cur = other
-            for _ in range(rng.choice([0, 0, 1, 2, 3])):
+            for _ in range(rng.choice([0, 0, 1, 2, 3, 5, 8, 12])):
                 nxt = _rand_dict(rng, keys3, 1, leaves)
                 cur[key] = nxt
                 cur = nxt
@@ -535,6 +551,20 @@ def _gen(ctx, n_exh_leaves, n_pair, n_multi, n_nested, n_bad, n_ext):
                 case["value"] = (_rand_dict(rng, keys3, rng.choice([1, 2]), leaves) if rng.random() < 0.3
                                  else copy.deepcopy(rng.choice(leaves)))
             yield case
+
+    def seqs():
+        """two to four successive update_recursively calls on one d; sub-dictionaries of an `other` that d did not have
+        are stored in d as they are, so a later update may write into an earlier `other`"""
+        rng = __import__("random").Random(seeds[9])
+        for _ in range(n_ext):
+            leaves = PALETTE if rng.random() < 0.4 else rng.sample(PALETTE, 3)
+            d = _rand_dict(rng, keys3, rng.choice([1, 2]), leaves, p_absent=0.55)
+            o1 = _rand_dict(rng, keys3, rng.choice([2, 3]), leaves, p_absent=0.3, p_dict=0.6)
+            others = [o1]
+            for _ in range(rng.choice([1, 1, 2, 3])):
+                others.append(_mutate(rng, others[-1], keys3, leaves) if rng.random() < 0.7
+                              else _rand_dict(rng, keys3, 2, leaves, p_dict=0.6))
+            yield {"op": "seq", "d": d, "others": others}
 
     def zips():
         rng = __import__("random").Random(seeds[5])
@@ -594,7 +624,7 @@ def _gen(ctx, n_exh_leaves, n_pair, n_multi, n_nested, n_bad, n_ext):
             yield {"op": "uwg", "ctx": _with_changed(rng, ctx_, 0.4), "new": [_with_changed(rng, c, 0.3) for c in new],
                    "old": _with_changed(rng, copy.deepcopy(old), 0.15)}
 
-    return _interleave([exh_pairs(), exh_small(), pairs(), deep_pairs(), multis(), nesteds(), bads(), ustrs(), zips(), groups(), uwgs()])
+    return _interleave([exh_pairs(), exh_depth3(), exh_small(), pairs(), deep_pairs(), multis(), nesteds(), bads(), ustrs(), seqs(), zips(), groups(), uwgs()])
 
 
 def gen_cases(ctx):
@@ -865,9 +895,18 @@ def _run_impl(case):
         out = {"lv": []}
         idmap = None
         if case.get("paths"):
+            # identities: the objects of a are numbered first, then those of b
             enc = _Enc(case)
-            idmap = {i: -2 for i in _mut_ids(b, set())}
-            _tok_tree(a, enc, [0], idmap)
+            idmap, ctr = {}, [0]
+            _tok_tree(a, enc, ctr, idmap)
+            _tok_tree(b, enc, ctr, idmap)
+            before_ab = _shallow_all(a, b)
+        # the calls with the default level and with a positional level; an argument against itself
+        out["default"] = {"iab": _call(lc.intersection, a, b), "dab": _call(lc.difference, a, b),
+                          "dab_pos": _call(lc.difference, a, b, -1), "daa": _call(lc.difference, a, a)}
+        for name in ("iab", "dab", "dab_pos", "daa"):
+            if "r" in out["default"][name]:
+                out["default"][name] = {"r": copy.deepcopy(out["default"][name]["r"])}
         for lv in case["levels"]:
             r = {}
             iab = _call(lc.intersection, a, b, level=lv)
@@ -885,6 +924,8 @@ def _run_impl(case):
             if idmap is not None and "r" in iab and "r" in dab:
                 # which objects do the results consist of?  (before anything is updated)
                 r["tok"] = {"inter": _tok_result(iab["r"], enc, idmap), "diff": _tok_result(dab["r"], enc, idmap)}
+                # which objects of the arguments did intersection / difference change?  (none, one hopes)
+                r["written"] = _written(before_ab, idmap)
             if "r" in iab and "r" in dab:
                 # freeze the observations before anything is updated (difference may return parts of a)
                 r["iab"] = {"r": copy.deepcopy(iab["r"])}
@@ -902,10 +943,10 @@ def _run_impl(case):
                 if r.get(name) == {"r": a}:
                     r[name] = "=a"
             out["lv"].append(r)
-        d = _fresh(a)
+        d = _fresh(case["a"])
         if idmap is not None:
             # which objects does update_recursively write to, what do d and other consist of afterwards?
-            o = _fresh(b)
+            o = _fresh(case["b"])
             mp, ctr = {}, [0]
             _tok_tree(d, enc, ctr, mp)
             _tok_tree(o, enc, ctr, mp)
@@ -923,9 +964,16 @@ def _run_impl(case):
         ds = _fresh(case["ds"])
         lv = case["level"]
         s0 = _snap(ds)
+        enc, mp, ctr = _Enc(case), {}, [0]
+        for d in ds:
+            _tok_tree(d, enc, ctr, mp)
+        before = _shallow_all(*ds)
         out = {"all": _call(lc.intersection, *ds, level=lv)}
         if "r" in out["all"]:
             out["shares"] = _shares(out["all"]["r"], *ds)
+            # what the result consists of (every object must be new) and which argument objects changed (none)
+            out["tok"] = _tok_result(out["all"]["r"], enc, mp)
+            out["written"] = _written(before, mp)
         out["default_level"] = _call(lc.intersection, *ds) if lv == -1 else None
         n = len(ds)
         if 2 <= n <= 3:
@@ -976,15 +1024,42 @@ def _run_impl(case):
         # where is the previous d[key]?  walk d[key][key]...[key]
         at, cur, steps = None, d.get(key), 0
         if prev is not _ABSENT:
-            mutable = isinstance(prev, (dict, list))
-            while isinstance(cur, dict) and key in cur and steps < 50:
+            # (the statement asks for the previous value to be reachable, not for the same object: the identity is
+            # recorded for the correspondence with the write-log model only)
+            at_same = None
+            while isinstance(cur, dict) and key in cur and steps < 60:
                 cur = cur[key]
                 steps += 1
-                if cur is prev or (not mutable and type(cur) is type(prev) and cur == prev):
+                if cur is prev:
+                    at_same = steps
+                if cur is prev or (type(cur) is type(prev) and cur == prev):
                     at = steps
-                    break
+                    if cur is prev:
+                        break
+            out["prev_at_same_object"] = at_same
         out["prev_at"] = at
         return out
+    if op == "seq":
+        # d.update_recursively(o1); d.update_recursively(o2); …: every `other` is kept and looked at again at the end
+        d = _fresh(case["d"])
+        others = [_fresh(o) for o in case["others"]]
+        enc, mp, ctr = _Enc(case), {}, [0]
+        _tok_tree(d, enc, ctr, mp)
+        for o in others:
+            _tok_tree(o, enc, ctr, mp)
+        steps = []
+        for o in others:
+            before = _shallow_all(d, *others)
+            d_before = copy.deepcopy(d)
+            o_before = copy.deepcopy(o)
+            u = _call(lc.update_recursively, d, o)
+            if "e" in u:
+                steps.append(u)
+                break
+            steps.append({"d": copy.deepcopy(d), "d_before": d_before, "o_before": o_before,
+                          "tree": _tok_result(d, enc, mp), "written": _written(before, mp)})
+        return {"steps": steps, "others_after": [_tok_result(o, enc, mp) for o in others],
+                "others_values": [copy.deepcopy(o) for o in others]}
     if op == "ustr":
         d, other = _fresh(case["d"]), _fresh(case["other"])
         args = [d, other] + ([_fresh(case["value"])] if "value" in case else [])
@@ -1165,7 +1240,7 @@ def _run_impl(case):
 # translation to the model's slot vectors
 
 _VALUE_FIELDS = ("a", "b", "d", "other", "value", "ctx", "old")
-_LIST_FIELDS = ("ds", "vals", "values", "values2", "ctxs", "new", "new2", "oldgrp")
+_LIST_FIELDS = ("ds", "vals", "values", "values2", "ctxs", "new", "new2", "oldgrp", "others")
 
 
 def _case_values(case):
@@ -1263,7 +1338,8 @@ def model_requests(case):
             reqs.append({"op": "paths", "d": a, "o": b, "paths": [e.path(p) for p in _pair_paths(case)]})
             ctr = [0]
             ta = _tok_tree(case["a"], e, ctr)
-            reqs.append({"op": "tok", "n": n, "a": ta, "b": b, "c": ctr[0], "levels": case["levels"], "falsy": e.falsy()})
+            tb = _tok_tree(case["b"], e, ctr)
+            reqs.append({"op": "tok", "n": n, "a": ta, "b": tb, "c": ctr[0], "levels": case["levels"], "falsy": e.falsy()})
             ctr = [0]
             td = _tok_tree(case["a"], e, ctr)
             to = _tok_tree(case["b"], e, ctr)
@@ -1272,6 +1348,9 @@ def model_requests(case):
     if op == "multi":
         ds = [e.val(d) for d in case["ds"]]
         reqs = [{"op": "inter", "n": n, "level": case["level"], "ds": ds, "falsy": e.falsy()}]
+        ctr = [0]
+        args = [_tok_tree(d, e, ctr) for d in case["ds"]]
+        reqs.append({"op": "tokn", "n": n, "level": case["level"], "args": args, "c": ctr[0]})
         if len(ds) == 3:
             reqs.append({"op": "assoc", "n": n, "level": case["level"], "a": ds[0], "b": ds[1], "c": ds[2]})
         return reqs
@@ -1282,6 +1361,11 @@ def model_requests(case):
         return [{"op": "nested", "k": e.keys.index(case["key"]), "d": e.val(case["d"]), "other": e.val(case["other"])},
                 {"op": "mutnest", "k": e.keys.index(case["key"]), "d": td, "other": to, "c": ctr[0]},
                 {"op": "mn", "k": e.keys.index(case["key"]), "v": e.val(case["other"])}]
+    if op == "seq":
+        ctr = [0]
+        td = _tok_tree(case["d"], e, ctr)
+        tos = [_tok_tree(o, e, ctr) for o in case["others"]]
+        return [{"op": "mutseq", "d": td, "others": tos, "c": ctr[0]}]
     if op == "ustr":
         other = case["other"]
         if isinstance(other, str):
@@ -1296,7 +1380,8 @@ def model_requests(case):
         return [{"op": "kw", "n": n, "level": -1 if case["level"] is None else case["level"],
                  "ds": [e.val(d) for d in case["ds"]], "unknown": case["unknown"]}]
     if op == "cyc":
-        return []          # a self-referential value is not a value of the model
+        # a self-referential value is not a value of the model; only "does d have the key" matters (updateNestedCyclic)
+        return [{"op": "cyc", "key_in_d": case["key"] in case["d"]}]
     if op == "zip":
         return [{"op": "zip", "n": n, "zk": e.keys.index("zip"), "values": [e.val(v) for v in vals], "falsy": e.falsy()}
                 for vals in _zip_rounds(case)]
@@ -1419,7 +1504,13 @@ def compare(case, res, replies):
                 for name in ("inter", "diff"):
                     if "tok" in r and r["tok"][name] != mt[name]:
                         return (f"level {lv}: objects of the {'intersection' if name == 'inter' else 'difference'}: impl "
-                                f"{r['tok'][name]} vs token model {mt[name]} (t: identity in d1, -1 new, -2 object of d2)")
+                                f"{r['tok'][name]} vs token model {mt[name]} (t: identity of an object of d1 / d2, -1: new)")
+                # the write logs: every dictionary of an argument whose items changed must be in a log (they hold new
+                # objects only, so none may have changed)
+                bad = [t for t in r.get("written", []) if t not in mt["ilog"] and t not in mt["dlog"]]
+                if bad:
+                    return (f"level {lv}: intersection/difference changed the dictionaries {bad} of their arguments; the "
+                            f"write logs of the model are {mt['ilog']} and {mt['dlog']}")
         for lv, r, ml in zip(case["levels"], res["lv"], m["r"]):
             r = _expand(r, a)
             for name in ("iab", "iba", "dab", "rec"):
@@ -1427,7 +1518,7 @@ def compare(case, res, replies):
                 if got != {"r": ml[name]}:
                     return f"level {lv}: {name}: impl {got} vs model {ml[name]}"
             if _obs(e, r["iaa"]) != {"r": e.val(a)}:
-                pass  # idempotence is the oracle's business; the model side is a theorem
+                return f"level {lv}: intersection(a, a): impl {_obs(e, r['iaa'])} vs model (`inter_idem`) {e.val(a)}"
             if ml["dspec"] != e.val(ref_diff(lv, a, b)):
                 return (f"level {lv}: Lean `diffSpec` gives {ml['dspec']}, the Python reference of 'the items of d1 not "
                         f"contained in d2' {e.val(ref_diff(lv, a, b))}")
@@ -1437,6 +1528,14 @@ def compare(case, res, replies):
                     return f"level {lv}: Lean `contained` gives {ml[name]} for {name}, the Python reference {ref[name]}"
             if not (ml["ciab_a"] and ml["ciab_b"]):
                 return f"level {lv}: the model's intersection is not contained in an argument (Lean `contained`): {ml}"
+        if -1 in case["levels"]:
+            unl = m["r"][case["levels"].index(-1)]
+            for name, key in (("iab", "iab"), ("dab", "dab"), ("dab_pos", "dab")):
+                if _obs(e, res["default"][name]) != {"r": unl[key]}:
+                    return (f"{name} with the default / positional level: impl {_obs(e, res['default'][name])} vs model at "
+                            f"level -1 {unl[key]}")
+        if _obs(e, res["default"]["daa"]) != {"r": [None] * len(e.keys)}:
+            return f"difference(a, a): impl {_obs(e, res['default']['daa'])} vs model (empty)"
         if len(replies) > 3 and "mut" in res:
             msg = _compare_mut("update_recursively", res["mut"], replies[3], _tok_tree(b, e, [_count_toks(a, e)]))
             if msg:
@@ -1475,8 +1574,16 @@ def compare(case, res, replies):
         if "recs" in res and [_obs(e, r) for r in res["recs"]] != [{"r": x} for x in replies[0].get("recs", [])]:
             return (f"reconstruction of the arguments: impl {[_obs(e, r) for r in res['recs']]} vs model "
                     f"{replies[0].get('recs')}")
+        mt = replies[1]
+        if "tok" in res:
+            if res["tok"] != mt["r"]:
+                return (f"intersection(*ds, level={case['level']}): objects of the result: impl {res['tok']} vs token model "
+                        f"{mt['r']} (t: identity of an argument's object, -1: new)")
+            bad = [t for t in res["written"] if t not in mt["log"]]
+            if bad:
+                return f"intersection changed the dictionaries {bad} of its arguments; the model's write log is {mt['log']}"
         if len(case["ds"]) == 3:
-            m = replies[1]
+            m = replies[2]
             for name in ("ab_c", "a_bc"):
                 if _obs(e, res[name]) != {"r": m[name]}:
                     return f"{name}: impl {_obs(e, res[name])} vs model {m[name]}"
@@ -1515,8 +1622,50 @@ def compare(case, res, replies):
         got = e.val(res["d"])
         if got != m["r"]:
             return f"update_nested: impl d = {got} vs model {m['r']}"
-        if case["key"] in case["d"] and res["prev_at"] != m["depth"] + 1:
-            return f"update_nested: previous d[key] found at depth {res['prev_at']}, model nestDepth+1 = {m['depth'] + 1}"
+        if case["key"] in case["d"] and res.get("prev_at_same_object") != m["depth"] + 1:
+            return (f"update_nested: the object that was d[key] is found at depth {res.get('prev_at_same_object')}, "
+                    f"model nestDepth+1 = {m['depth'] + 1}")
+        return None
+    if op == "seq":
+        msteps = replies[0]["steps"]
+        latest = {}          # identity -> the latest tree the model has for that dictionary object
+
+        def note(t):
+            if "s" in t:
+                if t["t"] >= 0:
+                    latest[t["t"]] = t
+                for c in t["s"]:
+                    if c is not None:
+                        note(c)
+
+        def resolve(t):
+            """the tree of an object as the model leaves it: its latest version, children resolved likewise"""
+            if "s" not in t:
+                return t
+            cur = latest.get(t["t"], t) if t["t"] >= 0 else t
+            return {"t": cur["t"], "s": [None if c is None else resolve(c) for c in cur["s"]]}
+
+        ctr = [_count_toks(case["d"], e)]
+        tos = [_tok_tree(o, e, ctr) for o in case["others"]]
+        for i, (st, ms) in enumerate(zip(res["steps"], msteps)):
+            if "e" in st or "e" in ms:
+                if st.get("e") != ms.get("e"):
+                    return f"step {i + 1}: impl {st.get('e', 'returns')} vs model {ms}"
+                break
+            if st["tree"] != ms["d"]:
+                return (f"step {i + 1} (update_recursively(d, {case['others'][i]})): objects of d afterwards: impl {st['tree']} "
+                        f"vs write-log model {ms['d']}")
+            bad = [t for t in st["written"] if t not in ms["log"]]
+            if bad:
+                return f"step {i + 1}: the dictionaries {bad} were changed but are not in the model's write log {ms['log']}"
+            note(ms["d"])
+        else:
+            # every `other` afterwards: its own objects in their latest state (a later update of d may have written into a
+            # dictionary that an earlier update stored in d without copying it: by design, reported, not judged)
+            for i, (to, after) in enumerate(zip(tos, res["others_after"])):
+                if resolve(to) != after:
+                    return (f"other #{i + 1} = {case['others'][i]} consists of {after} after the sequence; the write-log "
+                            f"model predicts {resolve(to)}")
         return None
     if op == "ustr":
         got = _obs(e, res)
@@ -1530,6 +1679,10 @@ def compare(case, res, replies):
             return f"intersection with keyword arguments: impl {got} vs model {replies[0]}"
         return None
     if op == "cyc":
+        got = {"e": res["e"]} if "e" in res else {"ok": res["ok"]}
+        if got != replies[0]:
+            return (f"update_nested({case['key']!r}, {case['d']}, <other with a cycle of length {case['cycle']} along the key>): "
+                    f"impl {got} vs model {replies[0]}")
         return None
     if op == "zip":
         if "e" in res:
@@ -1604,6 +1757,18 @@ def _oracle_inter(lv, ds, res, what):
         if not contained(lv, res, d):
             return f"{what} = {res} is not contained in argument {i} = {d} (level {lv})"
     cands = list(ds) + _prunings(ds[0])
+    # for small arguments: every dictionary over their top-level keys and item values (the law itself, not a reference)
+    keys = []
+    vals = []
+    for d in ds:
+        for k, v in d.items():
+            if k not in keys:
+                keys.append(k)
+            if not any(v is x or (type(v) is type(x) and v == x) for x in vals):
+                vals.append(v)
+    if keys and (len(vals) + 1) ** len(keys) <= 27:
+        for combo in itertools.product([_ABSENT] + vals, repeat=len(keys)):
+            cands.append({k: v for k, v in zip(keys, combo) if v is not _ABSENT})
     glb = ds[0]
     for d in ds[1:]:
         glb = ref_glb(lv, glb, d)
@@ -1668,10 +1833,10 @@ def _oracle(case, res):
                 return f"intersection is not idempotent at level {lv}: intersection({a}, {a}) = {iaa}"
             if r["iab_shares"]:
                 return (f"intersection({a}, {b}, level={lv}) = {iab} is not a deep copy: it shares a mutable object "
-                        f"(dictionary or list) with an argument")
+                        f"(dictionary, list, set or object) with an argument")
             if r["iaa_shares"]:
                 return (f"intersection({a}, {a}, level={lv}) = {iaa} is not a deep copy: it shares a mutable object "
-                        f"(dictionary or list) with its argument")
+                        f"(dictionary, list, set or object) with its argument")
             # difference: exactly the items of d1 not contained in d2
             if lv != 0:
                 for k in a:
@@ -1693,6 +1858,17 @@ def _oracle(case, res):
             if rec != a:
                 return (f"level {lv}: updating the intersection {iab} with the difference {dab} gives {rec}, "
                         f"not d1 = {a} (d2 = {b})")
+        # the calls without `level` (and with a positional one) are the unlimited ones; an argument against itself
+        for name, ref, what in (("iab", ref_glb(-1, a, b), f"intersection({a}, {b})"),
+                                ("dab", ref_diff(-1, a, b), f"difference({a}, {b})"),
+                                ("dab_pos", ref_diff(-1, a, b), f"difference({a}, {b}, -1)"),
+                                ("daa", {}, f"difference({a}, {a})")):
+            got = res["default"][name]
+            if "e" in got:
+                return f"{what} raised {got['e']}"
+            if got["r"] != ref:
+                return (f"{what} = {got['r']}, but " + ("the greatest common part is " if name == "iab" else
+                        "the items of d1 not contained in d2 are ") + f"{ref}")
         # update_recursively(d, other): other contained in d afterwards, untouched items kept
         if "e" in res["upd"]:
             return f"update_recursively({a}, {b}) raised {res['upd']['e']}"
@@ -1763,6 +1939,22 @@ def _oracle(case, res):
         if key in d0 and res["prev_at"] is None:
             return (f"update_nested({key!r}, {d0}, {o0}): the previous d[{key!r}] = {d0[key]!r} is not reachable "
                     f"under the new one by following {key!r}: d = {d1}")
+        return None
+    if op == "seq":
+        # each step by itself obeys the statement (other contained afterwards, untouched items of d kept); what happens to
+        # the earlier `other`s through shared sub-dictionaries is by design and only compared with the model
+        for i, st in enumerate(res["steps"]):
+            if "e" in st:
+                return f"step {i + 1} of {case}: update_recursively raised {st['e']}"
+            o, d0, d1 = st["o_before"], st["d_before"], st["d"]
+            what = f"step {i + 1}: update_recursively({d0}, {o})"
+            if not contained(-1, o, d1):
+                return f"{what} gives {d1}, which does not contain other"
+            for p in _paths(d0):
+                if untouched(o, p) and get_path(d1, p) != get_path(d0, p):
+                    after = get_path(d1, p)
+                    return (f"{what} gives {d1}: the item at {'.'.join(map(str, p))} is not overwritten by other but changed "
+                            f"from {get_path(d0, p)!r} to {'nothing (absent)' if after is _NOPATH else repr(after)}")
         return None
     if op == "ustr":
         d0, other = case["d"], case["other"]
@@ -1916,6 +2108,14 @@ def _depth(v):
     return 1 + max([_depth(x) for x in v.values()] + [0]) if isinstance(v, dict) else 0
 
 
+def _all_leaves(v):
+    if isinstance(v, dict):
+        for x in v.values():
+            yield from _all_leaves(x)
+    else:
+        yield v
+
+
 def _has_falsy_leaf(v):
     if isinstance(v, dict):
         return any(_has_falsy_leaf(x) for x in v.values()) or not v
@@ -1928,19 +2128,21 @@ def classify(case, res):
     op = case["op"]
     if op == "pair":
         a, b = case["a"], case["b"]
-        labels = [f"pair:depth={max(_depth(a), _depth(b))}", f"pair:keys={len(set(a) | set(b))}"]
+        labels = [f"pair:depth={max(_depth(a), _depth(b))}"]
         rel = "equal" if a == b else ("a<b" if contained(-1, a, b) else ("b<a" if contained(-1, b, a) else "incomparable"))
         labels.append("pair:" + rel)
-        for lv, r in zip(case["levels"], res["lv"]):
-            i, d = r["iab"].get("r"), r["dab"].get("r")
-            labels.append(f"lv{lv}:inter={'empty' if not i else 'nonempty'},diff={'empty' if not d else 'nonempty'}")
-            if d and _has_falsy_leaf(d):
-                labels.append("diff-keeps-falsy-or-empty")
+        if any(r["dab"].get("r") and _has_falsy_leaf(r["dab"]["r"]) for r in res["lv"]):
+            labels.append("pair:diff-keeps-falsy-or-empty")
+        if any(isinstance(x, (tuple, set, frozenset, float, _Obj, bytes)) for x in _all_leaves(a)):
+            labels.append("pair:non-json-leaf")
+        if isinstance(a, _DictSub):
+            labels.append("pair:dict-subclass")
+        if any(isinstance(k, int) for k in a):
+            labels.append("pair:int-keys")
         return labels
     if op == "multi":
         r = res["all"].get("r")
-        return [f"multi:n={len(case['ds'])}", f"multi:lv={case['level']}",
-                "multi:" + ("error" if "e" in res["all"] else ("empty" if not r else "nonempty"))]
+        return [f"multi:n={len(case['ds'])}", "multi:" + ("error" if "e" in res["all"] else ("empty" if not r else "nonempty"))]
     if op == "nested":
         return ["nested:" + ("error" if "e" in res else ("key-absent" if case["key"] not in case["d"]
                                                           else f"depth={res['prev_at']}"))]
@@ -1955,10 +2157,13 @@ def classify(case, res):
     if op == "zip":
         o = res["outs"][0] if res.get("outs") else res
         return ["zip:" + (o["e"] if "e" in o else ("all-common" if o["zip"] is None else "with-parts")),
-                f"zip:n={len(case['values'])}", "zip:kind=" + case.get("kind", "fc") + ("+fields" if case.get("fields") else ""),
-                f"zip:rounds={len(_zip_rounds(case))}"]
+                "zip:kind=" + case.get("kind", "fc") + ("+fields" if case.get("fields") else "")]
     if op in ("group", "split", "uwg", "cyc"):
         return [op + ":" + (res["e"] if "e" in res else "ok")]
+    if op == "seq":
+        shared = any(t in ms for st in res["steps"][1:] if "written" in st for t in st["written"]
+                     for ms in [range(_count_toks(case["d"], _Enc(case)), 10 ** 6)])
+        return [f"seq:steps={len(res['steps'])}", "seq:" + ("writes-into-an-earlier-other" if shared else "no-aliasing-effect")]
     return [op]
 
 
@@ -2020,6 +2225,15 @@ def shrink(case):
             if extra in case:
                 for s_ in _sub_values(case[extra]):
                     yield dict(case, **{extra: s_})
+    elif op == "seq":
+        os_ = case["others"]
+        for i in range(len(os_)):
+            if len(os_) > 1:
+                yield dict(case, others=os_[:i] + os_[i + 1:])
+            for s_ in _sub_values(os_[i]):
+                yield dict(case, others=os_[:i] + [s_] + os_[i + 1:])
+        for s_ in _sub_values(case["d"]):
+            yield dict(case, d=s_)
     elif op == "ustr":
         for name in ("d", "other", "value"):
             if isinstance(case.get(name), dict):
